@@ -33,6 +33,7 @@ import TxdbusModel.Proofs.Auth.ClientStrict
 import TxdbusModel.Proofs.Auth.ClientFraming
 import TxdbusModel.Proofs.Auth.ClientCompleteBytes
 import TxdbusModel.Auth.ClientOrig
+import TxdbusModel.Proofs.Auth.Handshake2Inv
 
 namespace Txdbus.AuthClient
 
@@ -382,6 +383,129 @@ theorem prefix_model_data_during_anonymous_stalls :
 
 end Txdbus.AuthClient
 
+/-! ## 6. The composition: txdbus's client against txdbus's own bus (C07 x C06), every schedule of cuts
+
+Model: `Auth/Handshake2.lean` - the client model of this property and the bus model of C06 (`AuthServer.Proto` over the
+real mechanisms and `RealWorld`) joined by two byte queues; a `Move` hands a non-empty prefix of one queue to the
+receiver as one read; `run cfg (init cfg) ms` is the state after the schedule `ms`; `Reach` = reachable by some
+schedule (`reach_iff_run`).  Hypotheses (`Hyp`): the GUID is hex text, every line fits the 16384-byte limit of its
+receiver (user name, text of the client's ERROR line, the bus's answer to AUTH DBUS_COOKIE_SHA1), ERROR texts hold
+no CR, SHA-1 digests have 20 bytes.  The proofs are direct (a phase invariant of the composition,
+`Proofs/Auth/Handshake2{Bytes,Lines,Phase,Inv}.lean`), not a corollary of `completes_against_spec_server_bytes` and
+C06's `refines_spec_server`: the reference server of this file is one deterministic server per configuration, and
+the bus's cookie exchange (cookie id and challenge depend on the keyring and on `os.urandom`) is not an instance of
+it; what is reused from C06 are the per-line lemmas of `Proofs/Auth/Server{Mechs,RealSafe,Lines,Conform}.lean`. -/
+
+namespace Txdbus.Handshake2
+
+open Txdbus.AuthClient (sends lBEGIN)
+
+/-- COMPLETION, for every schedule.  If after the schedule `ms` nothing is in flight (both queues empty - every byte
+written was delivered), then: the client is authenticated, wrote BEGIN exactly once, did not close, and the
+mechanism it ended with is `mechAt (expectedMech cfg)`; the bus is authenticated (binary mode), neither closed nor
+crashed, exactly one mechanism step accepted in the whole conversation and it is that mechanism
+(EXTERNAL when the peer credentials carry a uid with a passwd entry, else DBUS_COOKIE_SHA1 when the keyring is usable -
+`keyringUsable` - else ANONYMOUS), `getUserName()` gave the bus a user name, the bus's binary branch received exactly
+the client's Hello call and the client's binary branch nothing. -/
+theorem own_bus_handshake_completes (cfg : Cfg) (hyp : Hyp cfg) (ms : List Move)
+    (hq : (run cfg (init cfg) ms).quiescent = true) :
+    let st := run cfg (init cfg) ms
+    st.c.authenticated = true ∧ (sends st.c.trace).count lBEGIN = 1 ∧ st.c.disconnecting = false ∧
+    st.c.auth.authMech = some (mechAt (expectedMech cfg)) ∧
+    st.s.authenticated = true ∧ st.s.closed = false ∧ st.s.crashed = false ∧
+    accepts st.s.log = [mechAt (expectedMech cfg)] ∧ st.s.guid.isSome = true ∧
+    st.s.binary = cfg.hello ∧ st.c.binary = [] := by
+  intro st
+  obtain ⟨hd, hc⟩ := inv_quiescent (inv_run hyp (inv_init cfg) ms) hq
+  refine ⟨hd.cAuth, hd.cBegin, hd.cOpen, hd.cMech, hd.sAuth, hd.sOpen, hd.sAlive, hd.acc, hd.guid, ?_, hd.cBin⟩
+  have := hd.bin
+  rw [hc, List.append_nil] at this
+  exact this
+
+/-- PROGRESS: such schedules exist from every reachable state - whatever the adversary did so far (`ms`), a
+continuation `ms'` delivers every queued byte and leaves nothing in flight (so the handshake never gets stuck and
+`own_bus_handshake_completes` applies to `ms ++ ms'`). -/
+theorem own_bus_handshake_progress (cfg : Cfg) (hyp : Hyp cfg) (ms : List Move) :
+    ∃ ms', (run cfg (init cfg) (ms ++ ms')).quiescent = true := by
+  obtain ⟨ms', h⟩ := inv_progress hyp (inv_run hyp (inv_init cfg) ms)
+  exact ⟨ms', by simpa [run] using h⟩
+
+/-- SAFETY, in every reachable state (`Safe`): (1) the client has written BEGIN / run `connectionAuthenticated()` (which
+writes the first binary message) / entered binary mode only if the bus has already written `OK <guid>` for a
+mechanism whose step accepted; (2) while the bus is in line mode its binary branch has received nothing, and if the
+client is already in binary mode the bus's line buffer is a proper prefix of `BEGIN\r\n` and the whole Hello call is
+still queued: no binary byte has reached the bus in line mode; (3) once the bus is in binary mode, what its binary
+branch received ++ what is still queued = the Hello call: nothing was read as a line, nothing lost. -/
+theorem own_bus_no_early_binary (cfg : Cfg) (hyp : Hyp cfg) (ms : List Move) :
+    Safe cfg (run cfg (init cfg) ms) :=
+  inv_safe (inv_run hyp (inv_init cfg) ms)
+
+/-- The same for `Reach` (the inductive form of "reachable"). -/
+theorem own_bus_reachable_safe (cfg : Cfg) (hyp : Hyp cfg) (st : State) (h : Reach cfg st) : Safe cfg st :=
+  inv_safe (reach_inv hyp h)
+
+/-- Which mechanism: by cases on the environment. -/
+theorem own_bus_mechanism (cfg : Cfg) :
+    (credsOk cfg = true → mechAt (expectedMech cfg) = b!"EXTERNAL") ∧
+    (credsOk cfg = false → keyringUsable cfg = true → mechAt (expectedMech cfg) = b!"DBUS_COOKIE_SHA1") ∧
+    (credsOk cfg = false → keyringUsable cfg = false → mechAt (expectedMech cfg) = b!"ANONYMOUS") := by
+  refine ⟨fun h => ?_, fun h0 h1 => ?_, fun h0 h1 => ?_⟩
+  · rw [expectedMech_0 h]; rfl
+  · rw [expectedMech_1 h0 h1]; rfl
+  · rw [expectedMech_2 h0 h1]; rfl
+
+/-! ### the hypotheses are satisfiable; the three mechanisms occur -/
+
+namespace Example
+
+open Txdbus.AuthServer (RealWorld EnvCfg PwEnt)
+
+/-- a hash of 20 bytes -/
+def sha (x : Bytes) : Bytes := (x ++ List.replicate 20 7).take 20
+
+def world (creds : Option Int) (dirs : List (Bytes × AuthServer.DirState)) : RealWorld :=
+  ⟨⟨creds, [⟨b!"root", 0, 0, b!"/root"⟩], 100, false, fun k n => List.replicate n (UInt8.ofNat (k + 65)), sha, b!"ctx"⟩,
+   dirs, [], 0⟩
+
+def cfg (unix : Bool) (creds : Option Int) (dirs : List (Bytes × AuthServer.DirState)) : Cfg :=
+  { unix := unix, guid := b!"0102", hello := [108, 1, 0, 1], user := b!"root", clientHome := b!"/root",
+    initStat := (0o40700, true), root := true, euid := 0, errText := fun _ => b!"e", w0 := world creds dirs }
+
+theorem sha_length (x : Bytes) : (sha x).length = 20 := by
+  unfold sha; simp
+
+theorem hyp (unix : Bool) (creds : Option Int) (dirs : List (Bytes × AuthServer.DirState))
+    (hfit : ∀ l ∈ (o1 (cfg unix creds dirs)).sent, l.length ≤ 16384) : Hyp (cfg unix creds dirs) where
+  guid := ⟨[1, 2], by decide, by show b!"0102" = AuthServer.hexlify [1, 2]; decide, by decide⟩
+  user := by show 2 * (b!"root").length + 22 ≤ 16384; decide
+  errText := fun _ => ⟨by show AuthServer.NoCR (b!"e"); unfold AuthServer.NoCR; decide,
+                       by show (b!"e").length + 6 ≤ 16384; decide⟩
+  sha := sha_length
+  challenge := hfit
+
+/-- credentials of uid 0 (which has a passwd entry): EXTERNAL -/
+example : expectedMech (cfg true (some 0) []) = 0 := by decide +kernel
+
+/-- no credentials, the keyring directory of root does not exist yet (the bus creates it): DBUS_COOKIE_SHA1;
+the hypotheses hold -/
+example : expectedMech (cfg true none []) = 1 ∧ Hyp (cfg true none []) :=
+  ⟨by decide +kernel, hyp _ _ _ (by decide +kernel)⟩
+
+/-- no credentials, the keyring directory is not usable: ANONYMOUS; the hypotheses hold -/
+example : expectedMech (cfg false none [(b!"/root", .bad)]) = 2 ∧ Hyp (cfg false none [(b!"/root", .bad)]) :=
+  ⟨by decide +kernel, hyp _ _ _ (by decide +kernel)⟩
+
+/-- a schedule that cuts every message after its first byte and then delivers the rest ends with nothing in
+flight, on the cookie path of a UNIX transport (an instance of `own_bus_handshake_progress`) -/
+example :
+    (run (cfg true none []) (init (cfg true none []))
+      ((List.replicate 12 [Move.toServer 0, Move.toServer 100000, Move.toClient 0, Move.toClient 100000]).flatten)
+      ).quiescent = true := by decide +kernel
+
+end Example
+
+end Txdbus.Handshake2
+
 #print axioms Txdbus.AuthClient.preference_table
 #print axioms Txdbus.AuthClient.preference_nodup
 #print axioms Txdbus.AuthClient.authDelimiter_table
@@ -409,3 +533,10 @@ end Txdbus.AuthClient
 #print axioms Txdbus.AuthClient.prefix_model_error_after_negotiate_tries_next
 #print axioms Txdbus.AuthClient.prefix_model_cookie_always_error
 #print axioms Txdbus.AuthClient.prefix_model_data_during_anonymous_stalls
+#print axioms Txdbus.Handshake2.own_bus_handshake_completes
+#print axioms Txdbus.Handshake2.own_bus_handshake_progress
+#print axioms Txdbus.Handshake2.own_bus_no_early_binary
+#print axioms Txdbus.Handshake2.own_bus_reachable_safe
+#print axioms Txdbus.Handshake2.own_bus_mechanism
+#print axioms Txdbus.Handshake2.Example.sha_length
+#print axioms Txdbus.Handshake2.Example.hyp
